@@ -13,7 +13,7 @@ META = {
         "_load_from_buffer / _save_to_buffer / _flush_buffer implementation: (a) the decision 'write or drop the entry without writing' depends only on fields of the shared entry, "
         "never on the flushing object's private _data (which is older than the entry when another object wrote last); (b) the serialized flush writes what the entry holds; (c) every "
         "buffered access refreshes the object from the entry (returns / re-points to the entry's contents on every path); (d) every buffered load and save registers the object for "
-        "the class-wide flush, that flush only stops when the registry is exhausted, and the registry holds strong references (a weak mapping drops collections the user no longer references). Order independence as a behavioural fact is NOT decided."
+        "the class-wide flush, that flush only stops when the registry is exhausted, and the registry holds strong references (a weak mapping drops collections the user no longer references). (h) a flush never re-points a buffer entry's contents (only entry creation and an operation's save may): nested handles obtained earlier stay part of the buffered data. Order independence as a behavioural fact is NOT decided."
     ),
     "rule": "obligations per implementation x buffered class kind (dict and list)",
     "trusted_base": ["engine value provenance (symbolic expressions) and CFG"],
